@@ -24,7 +24,7 @@ META = dict(
     technique='TLA+ denotational semantics + TLC exhaustive program emission + per-program comparison of the real command line with the bare engine + TLC trace validation',
 )
 
-SHARDS = 8
+SHARDS = 8          # thorough; quick uses 4 (fewer JVM start-ups)
 DIVERGENT = ('call depth', 'too many outputs', 'unbounded range')
 OVERRIDDEN = ['split', 'splits', 'test', 'match', 'capture', 'scan', 'sub', 'gsub', 'explode', 'implode', 'tojson', 'fromjson', 'debug', 'stderr', 'input',
               'inputs', 'input_filename', 'group_by', 'unique_by', 'min_by', 'max_by', 'paths', 'getpath', 'tostring', 'ascii_downcase', 'ltrimstr',
@@ -65,42 +65,35 @@ def show_outs(os_):
 def signature(e, tsig):
     prog = e['prog']
     names = sorted({n for n in OVERRIDDEN if re.search(r'(?<![\w$])' + n + r'(?![\w])', prog)})
-    if tsig in ('jq.fq_differs', 'jq.cli_differs') and prog.count('fromjson') >= 2:
-        fq = e.get('fq') or (e.get('cli') or {}).get('out') or []
-        for a, b in zip(fq, e.get('gj', [])):
-            if a != b and a.get('k') == 'v' and b.get('k') == 'v':
-                if a['v'].get('t') == 'str':
-                    try:
-                        if json.loads(untag(a['v'])) == untag(b['v']):
-                            return 'jq.diff:fromjson_of_fromjson_string'
-                    except Exception:
-                        pass
-                break
+    # known: a string that came out of fq's fromjson, fed to fromjson again, is parsed from its source text (see known_findings.txt)
+    if tsig in ('jq.fq_differs', 'jq.cli_differs') and re.search(r'fromjson\??\)*\s*\|\s*\(*fromjson', prog):
+        return 'jq.diff:fromjson_of_fromjson_string'
     return '%s:%s' % (tsig.replace('jq.', 'jq.diff:', 1) if tsig.startswith('jq.fq_differs') or tsig.startswith('jq.cli_differs') else tsig,
                       '+'.join(names[:4]) or 'core')
 
 
-def gen_cfg(k, nin, rot, div):
+def gen_cfg(k, nshards, nin, rot, div):
     return ('SPECIFICATION Spec\nCONSTANTS Shard = %d\n NShards = %d\n NIn = %d\n Rot = %d\n Div = %d\nCHECK_DEADLOCK FALSE\n'
-            % (k, SHARDS, nin, rot, div))
+            % (k, nshards, nin, rot, div))
 
 
 def tlc_cases(ctx):
     th = ctx.tier == 'thorough'
-    nin, div = (3, 1) if th else (1, 6)
+    nin, div = (3, 1) if th else (1, 12)
+    nsh = SHARDS if th else 4
 
     def one(k):
-        r = ctx.tlc('JqCoreGen', 'jgen%d.cfg' % k, cfg_text=gen_cfg(k, nin, ctx.seed, div), name='gen_jq_%d' % k, workers=1,
+        r = ctx.tlc('JqCoreGen', 'jgen%d.cfg' % k, cfg_text=gen_cfg(k, nsh, nin, ctx.seed, div), name='gen_jq_%d' % k, workers=1,
                     timeout=3000 if th else 900, heap='2g')
         ctx.tlc_expect_ok(r, 'JqCoreGen shard %d' % k)
         return r.printed
     cases = []
-    with ThreadPoolExecutor(max_workers=SHARDS) as ex:
-        for pr in ex.map(one, range(SHARDS)):
+    with ThreadPoolExecutor(max_workers=nsh) as ex:
+        for pr in ex.map(one, range(nsh)):
             cases += pr
-    if len(cases) < 1500:
+    if len(cases) < 800:
         raise Inconclusive('GEN produced too few cases: %d' % len(cases))
-    s = ctx.tlc('JqCoreSim', 'jsim.cfg', cfg_text='SPECIFICATION Spec\nCONSTRAINT Emit\nCHECK_DEADLOCK FALSE\n', simulate='num=%d' % (4000 if th else 600),
+    s = ctx.tlc('JqCoreSim', 'jsim.cfg', cfg_text='SPECIFICATION Spec\nCONSTRAINT Emit\nCHECK_DEADLOCK FALSE\n', simulate='num=%d' % (4000 if th else 300),
                 depth=3, timeout=1800, name='sim_jq')
     if s.rc != 0:
         raise Inconclusive('JqCoreSim failed rc=%s' % s.rc)
@@ -115,7 +108,7 @@ def tlc_cases(ctx):
 
 
 def tv(ctx, evs, name, shards=None, demo=False):
-    shards = shards or min(10, max(1, len(evs) // 800))
+    shards = shards or min(10 if ctx.tier == 'thorough' else 3, max(1, len(evs) // 800))
     chunks = [list(range(i, len(evs), shards)) for i in range(shards)]
     cfg = 'SPECIFICATION TSpec\nPOSTCONDITION Consumed\nCHECK_DEADLOCK FALSE\n'
 
@@ -188,11 +181,11 @@ def run(ctx):
     vlib.write_ndjson(cpath, kept)
     binp = ctx.go_build('c07')
     e1 = os.path.join(ctx.build, 'events_tlc.ndjson')
-    r = ctx.run([binp, 'replay', cpath, e1, str(15 if th else 40)], timeout=3000 if th else 900)
+    r = ctx.run([binp, 'replay', cpath, e1, str(15 if th else 60)], timeout=3000 if th else 900)
     if r.returncode != 0:
         raise Inconclusive('c07 replay failed: %s' % r.stderr[-1500:])
     e2 = os.path.join(ctx.build, 'events_rand.ndjson')
-    r = ctx.run([binp, 'rand', str(12000 if th else 2500), e2], timeout=3000 if th else 900)
+    r = ctx.run([binp, 'rand', str(12000 if th else 1500), e2], timeout=3000 if th else 900)
     if r.returncode != 0:
         raise Inconclusive('c07 rand failed: %s' % r.stderr[-1500:])
     ev1, ev2 = vlib.read_ndjson(e1), vlib.read_ndjson(e2)
@@ -213,6 +206,7 @@ def run(ctx):
     ctx.cov['arms'] = dict(batch_command_line=sum(1 for e in evs if 'fq' in e), plain_command_line=sum(1 for e in evs if 'cli' in e),
                            reference_rejects_program=sum(1 for e in evs if 'gj_compile' in e), reference_timeout_or_panic=refbroken)
     ctx.cov['core'] = dict(tlc_cases_in_core=n_core_tlc, tlc_cases_outside_core=dict(why), generated_programs_in_core=len(cores))
+    ctx.cov['input_programs_not_judged'] = sum(1 for e in evs if 'not_judged' in e)
     ctx.cov['spec_discrepancies'] = len(drifts)
     ctx.cov['engine_panics_recorded'] = sorted({e['prog'] for e in panics})[:8]
     ctx.cov['distinct_nontrivial'] = len({e['prog'] for e in evs if e.get('gj')})
